@@ -254,6 +254,8 @@ impl RelocatableContainer for RelocatableString {
 
         unsafe {
             self.data_ptr.init(ptr);
+            // zero the first byte to signal an empty string
+            *self.data_ptr.as_mut_ptr() = MaybeUninit::new(0);
         }
         Ok(())
     }
